@@ -8,7 +8,15 @@
      preu ... same for the code before fixes/C01-1 and C01-2 (diagnostics)
      signed <tx>                                            -> digest of every input as Transaction.sign computes it
      vdig <tx> <pos> <hash_type>                            -> digest Transaction.verify asks for (diagnostics)
-     spec <tx> <i> <hash_type>                              -> consensus preimage + digest *)
+     spec <tx> <i> <hash_type>                              -> consensus preimage + digest
+     sess <mode> <tx> <op> ...                              -> one answer token per op: the life-cycle model
+           (Model/Sighash.v: tobj / mut / lib_apply).  The object is built as <mode> says (api, apik, apib, apikr:
+           ob_build_api; ctor: lib_ctor; parse: ob_fresh of the fields of the API-built object), every op is mapped
+           to a constructor of [mut] and applied with lib_apply;
+             dig -> D=<fields>#<pos>.<hash type>.<preimage|ERR>,...   (ob_signature on the current object, every
+                    position, hash type 1 for legacy inputs and 1,2,3,0x81,0x82,0x83 for segwit inputs)
+             raw -> R=<fields>#<version>#<version_int>      vfy -> V      anything else -> ok
+           <fields> = <version>/<locktime>/<prev,vout,seq;...>/<value,script;...> : what raw() must serialise *)
 module BZ = Z
 open C01_model
 module H = Common.Make (struct type byte = C01_model.byte let zb = C01_model.zb let bz = C01_model.bz end)
@@ -65,7 +73,78 @@ let pre_ans = function
   | Some p -> hex_of_bytes p
   | None -> "ERR"
 
+
+(* ---------- sessions ---------- *)
+let rec int_of_nat = function O -> 0 | S n -> 1 + int_of_nat n
+let nat s = nat_of_int (int_of_string s)
+
+let mut_of (op : string) : mut =
+  match String.split_on_char '~' op with
+  | ["dig"] -> M_digest
+  | ["raw"] -> M_raw
+  | ["vfy"] -> M_verify
+  | ["sign"] | ["rsign"] | ["signk"] | ["rsignk"] -> M_sign
+  | ["sau"] | ["saui"; _] -> M_sign_and_update
+  | ["seq"; i; q] -> M_seq (nat i, z_of q)
+  | ["op"; i; prev; vout] -> M_outpoint (nat i, bytes_of_hex prev, z_of vout)
+  | ["ival"; i; v] -> M_in_value (nat i, z_of v)
+  | ["lt"; v] -> M_locktime (z_of v)
+  | ["ver"; v] -> M_version (z_of v)
+  | ["vint"; v] -> M_version_int (z_of v)
+  | ["oval"; j; v] -> M_out_value (nat j, z_of v)
+  | ["oscr"; j; sc] -> M_out_script (nat j, bytes_of_hex sc)
+  | ["addin"; x] -> M_add_input (in_of x)
+  | ["addout"; v; sc] -> M_add_output { to_value = z_of v; to_script = bytes_of_hex sc }
+  | ["perm"; p] -> M_permute (List.map nat (String.split_on_char '.' p))
+  | ["merge"; x; v; sc; pi; po] ->
+      M_merge ([in_of x], [{ to_value = z_of v; to_script = bytes_of_hex sc }],
+               List.map nat (String.split_on_char '.' pi), List.map nat (String.split_on_char '.' po))
+  | ["slrb"; b; i; lt] -> M_rel_blocks (z_of b, nat i, z_of lt)
+  | ["slrt"; sec; i; lt] -> M_rel_time (z_of sec, nat i, z_of lt)
+  | ["slb"; b] -> M_lock_blocks (z_of b)
+  | ["slt"; ts] -> M_lock_time (z_of ts)
+  | _ -> failwith "op"
+
+let fields_str (t : stx) : string =
+  let ins = String.concat ";" (List.map (fun x ->
+    hex_of_bytes x.si_in.ti_prev ^ "," ^ str_z x.si_in.ti_vout ^ "," ^ str_z x.si_in.ti_seq) t.st_ins) in
+  let outs = String.concat ";" (List.map (fun o -> str_z o.to_value ^ "," ^ hex_of_bytes o.to_script) t.st_outs) in
+  str_z t.st_version ^ "/" ^ str_z t.st_locktime ^ "/" ^ (if ins = "" then "-" else ins) ^ "/" ^ (if outs = "" then "-" else outs)
+
+let sw_hts = List.map BZ.of_int [1; 2; 3; 0x81; 0x82; 0x83]
+
+let digests_str (o : tobj) : string =
+  let ents = List.concat (List.mapi (fun p x ->
+    let wt = k_wtype x.si_kind in
+    let hts = (match wt with WT_legacy -> [BZ.one] | _ -> sw_hts) in
+    List.map (fun ht ->
+      string_of_int p ^ "." ^ str_z ht ^ "." ^ pre_ans (ob_signature sha256d hash160 o (BZ.of_int p) ht wt)) hts) o.ob_ins) in
+  if ents = [] then "-" else String.concat "," ents
+
+let session mode tok ops =
+  let t = tx_of_tok tok in
+  let v0 = if BZ.equal t.st_version BZ.zero then BZ.one else t.st_version in
+  if not (in32 v0) then "ERR build"
+  else begin
+    let o0 = (match mode with
+      | "api" | "apik" | "apib" -> ob_build_api t.st_version t.st_locktime t.st_segwit false t.st_ins t.st_outs
+      | "apikr" -> ob_build_api t.st_version t.st_locktime t.st_segwit true t.st_ins t.st_outs
+      | "ctor" -> lib_ctor t.st_version t.st_locktime t.st_segwit t.st_ins t.st_outs
+      | "parse" -> ob_fresh (ob_fields (ob_build_api t.st_version t.st_locktime t.st_segwit false t.st_ins t.st_outs))
+      | _ -> failwith "mode") in
+    let o = ref o0 in
+    String.concat " " (List.map (fun op ->
+      let m = mut_of op in
+      o := lib_apply !o m;
+      match m with
+      | M_digest -> "D=" ^ fields_str (ob_fields !o) ^ "#" ^ digests_str !o
+      | M_raw -> "R=" ^ fields_str (ob_fields !o) ^ "#" ^ str_z !o.ob_version ^ "#" ^ str_z !o.ob_version_int
+      | M_verify -> "V"
+      | _ -> "ok") ops)
+  end
+
 let dispatch = function
+  | "sess" :: mode :: tok :: ops -> session mode tok ops
   | ["pre"; _; tx; sid; ht; wt] ->
       pre_ans (lib_signature_at sha256d hash160 true (tx_of_tok tx) (z_of sid) (z_of ht) (wt_of wt))
   | ["preu"; _; tx; sid; ht; wt] ->
